@@ -65,7 +65,7 @@ fn step(cx: &mut Ctx, op: &Op, history_so_far: &[Op]) -> (String, bool) {
             let line = line();
             cx.rep.oracle_failure(
                 &format!("hang [{}] held=[{}]", op.fmt(), held.join(",")),
-                &format!("prepare/commit did not return within {:?} (history: {line})", cx.world.deadline),
+                &format!("prepare/commit did not return (deadline: {:?} of CPU time or 45 s of wall-clock time; history: {line})", cx.world.deadline),
                 &line,
             );
             cx.rep.bucket("hang");
@@ -212,6 +212,12 @@ fn corpus() -> Vec<Vec<Op>> {
         txn_b(Mode::U, FailMode::I, FailMode::B(8), &["U,refs/heads/b,n,any,o:c1,r"]),
     ]);
     v.push(vec![lock("packed-refs"), txn(Mode::D, &["D,refs/heads/a,n,any,-,r"])]);
+    // a back-off longer than the largest single step (1.25 s): the accounting of the time slept
+    // must add up over the steps or the acquisition never gives up (about 1.5 s of real sleeping)
+    v.push(vec![
+        lock("refs/heads/b"),
+        txn_b(Mode::D, FailMode::B(1300), FailMode::I, &["U,refs/heads/b,n,any,o:c1,r"]),
+    ]);
     // with a packed-refs file in place, the global lock replaces per-ref locks for deletions
     v.push(vec![
         txn(Mode::R, &["U,refs/heads/a,n,any,o:c1,r", "U,refs/tags/t,n,any,o:t1,r"]),
@@ -366,7 +372,11 @@ fn backoff_case(cx: &mut Ctx, ms: u64) {
         .take(100_000)
         .map(|d| d.as_millis() as u64)
         .collect();
-    let obs = waits.iter().map(u64::to_string).collect::<Vec<_>>().join(",");
+    let obs = if waits.len() >= 100_000 {
+        "endless".to_string()
+    } else {
+        waits.iter().map(u64::to_string).collect::<Vec<_>>().join(",")
+    };
     let op = format!("backoff {ms}");
     cx.rep.case(&op, if obs.is_empty() { "-" } else { &obs }, ms > 0);
     // the property on the randomised iterator
@@ -378,6 +388,11 @@ fn backoff_case(cx: &mut Ctx, ms: u64) {
         .collect();
     let sum: u64 = rnd.iter().sum();
     let mut ok = rnd.len() < 100_000;
+    let endless = if rnd.len() >= 100_000 || waits.len() >= 100_000 {
+        " — the iterator did not stop within 100000 items: lock_with_mode would never give up"
+    } else {
+        ""
+    };
     if sum > ms + 1250 {
         ok = false;
     }
@@ -394,7 +409,11 @@ fn backoff_case(cx: &mut Ctx, ms: u64) {
     if !ok {
         cx.rep.oracle_failure(
             &format!("backoff {ms}"),
-            &format!("randomised waits {rnd:?} violate the bound (sum {sum}, duration {ms})"),
+            &format!(
+                "randomised waits {:?}{} violate the bound (sum {sum}, duration {ms}){endless}",
+                &rnd[..rnd.len().min(40)],
+                if rnd.len() > 40 { format!(" … {} items", rnd.len()) } else { String::new() }
+            ),
             &op,
         );
     }
